@@ -7,6 +7,7 @@ import (
 	"flag"
 	"fmt"
 	"os"
+	"sort"
 	"strconv"
 	"strings"
 	"time"
@@ -94,6 +95,13 @@ func main() {
 				ks = append(ks, o.Key)
 			}
 		}
+		// floors are part of the verdict (Finish turns them into obligations): list the ones that fail
+		for name, min := range rep.Floors {
+			if rep.Counts[name] < min {
+				ks = append(ks, "FLOOR:"+name)
+			}
+		}
+		sort.Strings(ks)
 		b, _ := json.Marshal(ks)
 		fmt.Println(string(b))
 		os.Exit(0)
